@@ -4,15 +4,7 @@ import json, os, sys
 HERE = os.path.dirname(os.path.dirname(os.path.abspath(__file__)))
 sys.path.insert(0, HERE)
 
-CHECKS = {
- 'C04': dict(
-   technique='property-based testing (Hypothesis): differential against closed-form reference densities, quad normalisation, complex-step derivative oracle',
-   text='Generated error-model cases compared with an independent reference written from the docstrings; '
-        'normalisation by numerical integration; gradients against exact complex-step derivatives of the reference. '
-        'Sampling-based: shows absence of violations only on the explored cases.',
-   note='Trusts numpy/scipy (stats, quad), Hypothesis and vf/ref.py (cross-checked by the normalisation clause).',
-   design='DESIGN.md section 3 (C04)'),
-}
+from tools.checks_table import CHECKS
 ALL = ['C%02d' % i for i in range(1, 21)]
 
 def main():
